@@ -9,6 +9,7 @@ import (
 	"crypto/sha256"
 	"embed"
 	"fmt"
+	"math/big"
 	"strings"
 	"sync"
 
@@ -166,6 +167,7 @@ type GreaseRecipient struct {
 	N       int // number of stanzas
 	BodyLen int
 	Tag     int
+	ArgLen  int // >0: an extra argument of this many characters
 }
 
 func (g *GreaseRecipient) Stanzas() []*age.Stanza {
@@ -175,7 +177,11 @@ func (g *GreaseRecipient) Stanzas() []*age.Stanza {
 		for j := range body {
 			body[j] = byte(g.Tag*31 + i*7 + j)
 		}
-		out = append(out, &age.Stanza{Type: fmt.Sprintf("grease-%d-%d", g.Tag, i), Args: []string{"a", fmt.Sprint(i)}, Body: body})
+		st := &age.Stanza{Type: fmt.Sprintf("grease-%d-%d", g.Tag, i), Args: []string{"a", fmt.Sprint(i)}, Body: body}
+		if g.ArgLen > 0 {
+			st.Args = append(st.Args, strings.Repeat("Z", g.ArgLen))
+		}
+		out = append(out, st)
 	}
 	return out
 }
@@ -192,4 +198,17 @@ type LoggingIdentity struct {
 func (l *LoggingIdentity) Unwrap(st []*age.Stanza) ([]byte, error) {
 	*l.Trace = append(*l.Trace, l.Name)
 	return l.Inner.Unwrap(st)
+}
+
+// BareRSAIdentity builds an RSA identity from a private key given as plain numbers (no precomputed CRT
+// values), a fresh copy each time: a legal argument of agessh.NewRSAIdentity.
+func BareRSAIdentity(k int) age.Identity {
+	src := RSAKey(k)
+	key := &rsa.PrivateKey{PublicKey: rsa.PublicKey{N: new(big.Int).Set(src.N), E: src.E}, D: new(big.Int).Set(src.D)}
+	for _, p := range src.Primes {
+		key.Primes = append(key.Primes, new(big.Int).Set(p))
+	}
+	i, err := agessh.NewRSAIdentity(key)
+	must(err)
+	return i
 }
